@@ -459,6 +459,45 @@ def term_set(t, path, v):
     return t
 
 
+def _arg_strings(t, out):
+    """identifier-like strings among the ARGUMENTS of a term (constructor names under "c" are not arguments)"""
+    if isinstance(t, str):
+        if re.fullmatch(r"[a-z][a-z0-9_]{3,}", t):
+            out.add(t)
+    elif isinstance(t, list):
+        for x in t:
+            _arg_strings(x, out)
+    elif isinstance(t, dict):
+        for k, v in t.items():
+            if k != "c":
+                _arg_strings(v, out)
+    return out
+
+
+def _still_named(removed, cand):
+    """Dropping an element whose key (a character, a cone ...) is still NAMED by what remains - e.g. by another
+    character's script - leaves the generator's domain: such a candidate could fail for a reason of its own."""
+    names = _arg_strings(removed, set())
+    if not names:
+        return False
+    texts = []                      # the script-like strings that remain (not bare keys: two enemies may share one)
+
+    def walk(t):
+        if isinstance(t, str):
+            if not re.fullmatch(r"[A-Za-z0-9_]*", t):
+                texts.append(t)
+        elif isinstance(t, list):
+            for x in t:
+                walk(x)
+        elif isinstance(t, dict):
+            for k, v in t.items():
+                if k != "c":
+                    walk(v)
+    walk(cand)
+    blob = "\n".join(texts)
+    return any(re.search(r"(?<![A-Za-z0-9_])%s(?![A-Za-z0-9_])" % re.escape(n), blob) for n in names)
+
+
 def shrink_generic(ctx, comp, case, which, budget_s):
     """Structural shrinking for inputs without a single op list: repeatedly try to drop one element
     of any list inside the input term, keeping a candidate when the same rejection persists."""
@@ -491,7 +530,7 @@ def shrink_generic(ctx, comp, case, which, budget_s):
             i = len(lst) - 1
             while i >= 0 and time.time() < t_end:
                 cand = term_set(best["in"], p, lst[:i] + lst[i + 1:])
-                r = fails(cand)
+                r = None if _still_named(lst[i], cand) else fails(cand)
                 if r is not None:
                     best, lst, progressed = r, lst[:i] + lst[i + 1:], True
                 i -= 1
